@@ -131,6 +131,15 @@ def _scenario(spec, rnd, d, logdir, res):
     # a writer whose last output is a burst of exactly two read buffers followed by silence
     scripts.append({'stdout': [[64, 300], [2048, 0]], 'stderr': [[7, 300], [1024, 0]]})
     nwriters += 1
+    # descriptor 0 must be somebody else's when the loop is created (an earlier scenario of this process may have
+    # closed it): the loop's own epoll descriptor must never be the one that is closed below
+    try:
+        os.fstat(0)
+    except OSError:
+        fd_ = os.open('/dev/null', os.O_RDONLY)
+        if fd_ != 0:
+            os.dup2(fd_, 0)
+            os.close(fd_)
     aloop = asyncio.new_event_loop()
     asyncio.set_event_loop(aloop)
     loop = ioloop.IOLoop.current()
